@@ -328,6 +328,13 @@ def run (op : String) (args : List String) : Option String :=
   | "io.write.tcp" => simpleWrite mkTcp Parts.tcp args
   | "io.write.icmpv4" => simpleWrite mkIcmp4 Parts.icmpv4 args
   | "io.write.icmpv6" => simpleWrite mkIcmp6 Parts.icmpv6 args
+  -- `LinkHeader::write` / `TransportHeader::write`: a `match` that calls the `write` of the variant
+  | "io.write.link.eth2" => simpleWrite mkEth2 Parts.eth2 args
+  | "io.write.link.sll" => simpleWrite mkSll Parts.sll args
+  | "io.write.tp.udp" => simpleWrite mkUdp Parts.udp args
+  | "io.write.tp.tcp" => simpleWrite mkTcp Parts.tcp args
+  | "io.write.tp.icmpv4" => simpleWrite mkIcmp4 Parts.icmpv4 args
+  | "io.write.tp.icmpv6" => simpleWrite mkIcmp6 Parts.icmpv6 args
   | "io.write.ipv4exts" => do
     let (f, k) ← splitLast args
     let k ← argNat k
